@@ -11,7 +11,7 @@ import (
 
 func init() {
 	register("C13",
-		"Decides the structural premises of server tracking and graceful shutdown: onAccept registers the untrack callback after init (LIFO: it runs before the finalizer closes the descriptor), stores the connection, then re-reads IsActive() and untracks a connection that was closed meanwhile; untracking is only done by that callback and that re-check; Shutdown detaches the listener and closes it before scanning, returns nil only under activeConn==0, returns ctx.Err() on ctx.Done(), closes a tracked connection only when it is idle, counts every other one as active; idle means processing unlocked and both buffers empty; Serve's quit channel has capacity 1, quit never blocks and is reachable from Shutdown, OnHup and the accept-error path; after the EMFILE detach the retry goroutine's only exit re-arms the listener. Not decided: timing, the number of polls before the deadline, descriptor table contents.",
+		"Decides the structural premises of server tracking and graceful shutdown: onAccept registers the untrack callback after init (LIFO: it runs before the finalizer closes the descriptor), stores the connection, then re-reads IsActive() and untracks a connection that was closed meanwhile; untracking is only done by that callback and that re-check; Shutdown detaches the listener and closes it before scanning, returns nil only under activeConn==0, returns ctx.Err() on ctx.Done(), closes a tracked connection only when it is idle, counts every other one as active; idle means processing unlocked and both buffers empty; Serve's quit channel has capacity 1, quit never blocks and is reachable from Shutdown, OnHup and the accept-error path; after the EMFILE detach the retry goroutine's only exit re-arms the listener. server.Close publishes a closing mark before it sweeps and onAccept re-reads it after its Store (F19); FDOperator.Control forwards everything but a repeated detach; eventLoop.svr is cleared only by the Shutdown that took it; the close-callback walk is complete. Not decided: timing, the number of polls before the deadline, descriptor table contents.",
 		[]string{"sync.Map operations are linearizable", "accepts on one listener are serial (single poller slot)"},
 		func(r *Run) {
 			cfgs := []string{"linux"}
